@@ -98,8 +98,8 @@ theorem fork_closes (st : Stage σ α β) (s0 : σ) (par inCap : Nat) (outCap : 
 /-! instances: fork.Map / fork.Filter deliver the multiset of images / of the matching elements -/
 
 theorem fork_map_perm (f : α → Except ε β) (g : α → β) (hf : ∀ a, f a = .ok (g a))
-    (par inCap : Nat) (gated : Bool) (hpar : 1 ≤ par) {p : Pool Unit α (β ⊕ ε)}
-    (hr : Reachable (mapS .try_ f) (forkPool () par inCap (fun _ => par) [0, 1] gated) p)
+    (par inCap : Nat) (outCap : Nat → Nat) (gated : Bool) (hpar : 1 ≤ par) {p : Pool Unit α (β ⊕ ε)}
+    (hr : Reachable (mapS .try_ f) (forkPool () par inCap outCap [0, 1] gated) p)
     (hc : p.cancelled = false) (hx : p.allExited = true) :
     (p.delivered 0 ++ (p.outs 0).buf).Perm ((p.sent 0).map fun a => Sum.inl (g a)) := by
   have := fork_perm (mapS .try_ f) (fun a => [⟨0, .inl (g a), .sel⟩]) (by intro a; simp [mapS, hf])
@@ -107,8 +107,8 @@ theorem fork_map_perm (f : α → Except ε β) (g : α → β) (hf : ∀ a, f a
   rwa [(map_out .try_ f g hf _).1] at this
 
 theorem fork_filter_perm (f : α → Except ε Bool) (pr : α → Bool) (hf : ∀ a, f a = .ok (pr a))
-    (par inCap : Nat) (gated : Bool) (hpar : 1 ≤ par) {p : Pool Unit α α}
-    (hr : Reachable (filterS f) (forkPool () par inCap (fun _ => par) [0] gated) p)
+    (par inCap : Nat) (outCap : Nat → Nat) (gated : Bool) (hpar : 1 ≤ par) {p : Pool Unit α α}
+    (hr : Reachable (filterS f) (forkPool () par inCap outCap [0] gated) p)
     (hc : p.cancelled = false) (hx : p.allExited = true) :
     (p.delivered 0 ++ (p.outs 0).buf).Perm ((p.sent 0).filter pr) := by
   have := fork_perm (filterS f) (fun a => if pr a then [⟨0, a, .sel⟩] else [])
